@@ -343,7 +343,7 @@ func init() {
 	register(&Prop{
 		ID: "C16", Level: "exploration", MinDistinct: 1000, Worker: c16Worker,
 		Rule: "operation sequences over the alphabet {Refresh valid A (sync, enableCaller on), Refresh valid B (async, enableCaller off), Refresh invalid-early (rejected before anything is touched), Refresh invalid-late x3 (unknown logger type; property failure after a sync / an async configuration was started and bound), Destroy, log via tag (level cycling), write via one of two named handles, register tag, obtain handles}: " +
-			"ALL sequences of length 1..4 (quick) / 1..5 (thorough) chained in-process from the state 'nothing live', sequences of length 5-8 sampled, and every sequence of length <= 2 (quick) / <= 3 (thorough) executed as the very first thing a fresh process does. " +
+			"ALL sequences of length 1..5 (quick) / 1..6 (thorough) chained in-process from the state 'nothing live', sequences of length 5-8 sampled, and every sequence of length <= 2 (quick) / <= 3 (thorough) executed as the very first thing a fresh process does. " +
 			"Model: live in {none, A, B, limbo}; outcomes per statement (second Refresh rejected and live routing + enableCaller undisturbed, Destroy idempotent, registration refused while live/possible otherwise, output on the console when nothing is live, A/B routing incl. async after flush); in limbo only totality is judged. " +
 			"distinct_nontrivial = number of distinct sequences whose every step matched the model (enumerated sequences are distinct by construction; sampled ones are de-duplicated).",
 		Assumptions: []string{"the state after a late Refresh failure and before Destroy ('limbo') has no stated routing: only absence of panics/blocks is judged there", "a blocked call is detected by the worker's watchdog + goroutine dump (process-level), not by a deadline verdict"},
@@ -351,7 +351,7 @@ func init() {
 			var specs []Spec
 			for i := 0; i < 16; i++ {
 				s := d.NewSpec("enum", fmt.Sprintf("enum-%d", i), i, 16)
-				s.N = d.Pick(4, 5)
+				s.N = d.Pick(5, 6)
 				s.TimeoutS = 1800
 				specs = append(specs, s)
 			}
@@ -385,7 +385,7 @@ func init() {
 			}
 			d.RunWorkers(specs, 16)
 			d.Extra["exhaustive"] = true
-			d.Extra["exhaustive_spaces"] = []string{fmt.Sprintf("all op sequences of length 1..%d (in-process)", d.Pick(4, 5)), fmt.Sprintf("all op sequences of length 1..%d (fresh process each)", FL)}
+			d.Extra["exhaustive_spaces"] = []string{fmt.Sprintf("all op sequences of length 1..%d (in-process)", d.Pick(5, 6)), fmt.Sprintf("all op sequences of length 1..%d (fresh process each)", FL)}
 			d.Extra["fresh_process_sequences"] = len(seqs)
 		},
 	})
